@@ -89,6 +89,12 @@ def _check_borderline(case):
 
             op = DiagonalOperator(jnp.asarray(case['vals'], jnp.float32), axis_destination=case['axis'],
                                   in_structure=St.to_jax(case['S']))
+        elif what == 'scalar_with_axes':
+            from furax._base.core import CompositionOperator, HomothetyOperator, IdentityOperator
+
+            base = IdentityOperator(St.to_jax(case['S']))
+            k = jnp.full(tuple(case['kshape']), 2.0, jnp.float32)
+            op = k * base if case['form'] == 'k*A' else (base * k if case['form'] == 'A*k' else base / k)
         else:
             op = ops.build_toast({'in': {'dtype': 'float32'}, 'matrix': case['matrix']})
     except Exception as e:  # noqa: BLE001  (refusing such a construction is the normal behaviour)
